@@ -1409,7 +1409,11 @@ class Scene(Geometry3D):
         appended : trimesh.Scene
            Scene with geometry from both scenes
         """
-        result = append_scenes([self, other], common=[self.graph.base_frame])
+        result = append_scenes(
+            [self, other],
+            common=[self.graph.base_frame],
+            base_frame=self.graph.base_frame,
+        )
         return result
 
 
